@@ -61,6 +61,28 @@ def make {α : Type} (n : Int) (z : α) : M (List α) :=
 def make3 {α : Type} (n c : Int) (z : α) : M (List α) :=
   if 0 ≤ n ∧ n ≤ c then pure (List.replicate n.toNat z) else throw .makeLen
 
+/-! ### `float64` (finite values): the exact rational value
+
+`math.Max`, `math.Abs` on finite values; `math.Ldexp(x, k)` = `x·2^k` (exact in binary floating point
+as long as the result neither overflows nor is subnormal — `clipLine` keeps `|k| ≤ 1000` and the
+coordinates below 1); `math.Frexp(m)` returns `(f, e)` with `m = f·2^e`, `1/2 ≤ f < 1` for finite `m > 0`;
+only `e` is used.  NaN and ±Inf have no counterpart (the property is about finite coordinates; with a
+NaN or Inf coordinate `clipLine` takes the unscaled branch). -/
+
+def fmax (a b : Rat) : Rat := if a < b then b else a
+
+def fabs (a : Rat) : Rat := if a < 0 then -a else a
+
+/-- `math.Ldexp(x, k)` -/
+def ldexp (x : Rat) (k : Int) : Rat :=
+  if 0 ≤ k then x * ((2 ^ k.toNat : Nat) : Rat) else x / ((2 ^ (-k).toNat : Nat) : Rat)
+
+/-- the exponent returned by `math.Frexp(m)` for a finite `m > 0`: the `e` with `2^(e-1) ≤ m < 2^e` -/
+def frexpExp (m : Rat) : Int :=
+  if m ≤ 0 then 0 else
+    let k : Int := (Nat.log2 m.num.natAbs : Int) - (Nat.log2 m.den : Int)
+    if ldexp 1 k ≤ m then k + 1 else k
+
 def forRangeAux {α σ : Type} (body : σ → Int → α → M σ) : List α → Int → σ → M σ
   | [], _, s => pure s
   | x :: xs, i, s => do
